@@ -29,6 +29,7 @@ from bingo.variation.var_or import VarOr
 
 from harness.bingo_util import GenomeFitness
 from harness.common import harness_main, run_driver
+from harness.varphase import variation_correspondence
 
 
 class ReadMonitor:
@@ -258,6 +259,7 @@ def run(ctx, rep):
             for s in seqs:
                 if list(s) != gen_seq:
                     rep.disagree(f"{kind}: observed phase sequence {list(s)} differs from the regenerated phase list {gen_seq}", {"algorithm": kind})
+    variation_correspondence(ctx, rep)
 
 
 def special_islands(ctx, rep):
